@@ -1051,7 +1051,8 @@ impl World for C19 {
             let uri = uri_of(name);
             if case["invalid_interval"].as_bool().unwrap_or(false) {
                 let broken = format!("{text}def broken(:\n    pass\n");
-                for (t, label) in [(broken.clone(), "invalid"), (format!("{text}zz_added = 1\n"), "valid again")] {
+                // valid -> invalid -> valid (edited) -> invalid -> the very first text again (undo)
+                for (t, label) in [(broken.clone(), "invalid"), (format!("{text}zz_added = 1\n"), "valid again"), (broken.clone(), "invalid"), (text.clone(), "undone")] {
                     let _ = cl.notify("textDocument/didChange", json!({"textDocument": {"uri": uri, "version": version}, "contentChanges": [{"text": t}]}));
                     version += 1;
                     let last = if parses(&t) { Some(t.clone()) } else { model.get(&uri).and_then(|m| m.1.clone()) };
@@ -1062,6 +1063,13 @@ impl World for C19 {
                             o.bump("probe.sessions_with_invalid_interval", if label == "invalid" { 1 } else { 0 });
                             if label == "invalid" && d["diagnostics"].as_array().map(|a| a.is_empty()).unwrap_or(true) {
                                 bail!("diagnostics-missing", "diagnostics", "no diagnostic published for an unparsable document");
+                            }
+                            if label != "invalid" {
+                                // A text that parses has no parse error left over from the previous version.
+                                let stale = d["diagnostics"].as_array().map(|a| a.iter().any(|x| x["message"].as_str().map(|m| m.contains("Parse error")).unwrap_or(false))).unwrap_or(false);
+                                if stale {
+                                    bail!("diagnostics-stale", "diagnostics", "a document that parses again ({label}) still carries a parse error: {}", kit::clip(&d["diagnostics"].to_string()));
+                                }
                             }
                             check_ranges(&mut o, &format!("diagnostics after change to {label}"), &d, &uri, &model, &docs);
                         }
